@@ -415,6 +415,8 @@ def _(e, c, a): return Struct('Lock', [a[0]])
 def _(e, c, a):
     lk = un(a[0])
     g = Ref(lk.f[0], 'guard')
+    h = getattr(e, 'lock_hook', None)
+    if h: h('lock', lk.f[0])
     k = strip_generics(c).rstrip().split('::')[-1]
     if 'parking_lot' in c or 'lock_api' in c:
         return Some(g) if k.startswith('try_') else g
@@ -573,3 +575,75 @@ def _(e, c, a):
 
 @model(r'<.* as (io::)?Write>::flush$')
 def _(e, c, a): return Ok(mk_unit())
+
+
+# ---------------------------------------------------------------- arc_swap / tokio plumbing
+@model(r'ArcSwap(Any)?(<.*>)?::(new|from_pointee|from)$|ArcSwapOption(<.*>)?::(new|empty|from_pointee)$')
+def _(e, c, a):
+    v = a[0] if a else NONE()
+    if 'from_pointee' in c: v = Ref(Cell(v), 'Arc')
+    return Struct('ArcSwap', [Struct('Atomic', [v])])
+
+
+@model(r'ArcSwap(Any)?(<.*>)?::(load|load_full)$|ArcSwapOption(<.*>)?::(load|load_full)$')
+def _(e, c, a):
+    at = un(a[0]).f[0].v
+    cell = at.f[0]
+    h = getattr(e, 'atomic_hook', None)
+    r = h('load_ptr', cell) if h else None
+    return cell.v if r is None else r
+
+
+@model(r'ArcSwap(Any)?(<.*>)?::(store|swap)$|ArcSwapOption(<.*>)?::(store|swap)$')
+def _(e, c, a):
+    at = un(a[0]).f[0].v
+    cell = at.f[0]
+    h = getattr(e, 'atomic_hook', None)
+    old = cell.v
+    if not (h and h('store_ptr', cell, a[1]) is not None): cell.v = a[1]
+    return old if strip_generics(c).strip().endswith('swap') else mk_unit()
+
+
+@model(r'<(arc_swap::)?Guard<.*> as Deref>::deref$')
+def _(e, c, a):
+    v = a[0]
+    while isinstance(v, Ref) and isinstance(v.cell.v, Ref): v = v.cell.v
+    return v
+
+
+@model(r'^tokio::spawn$|tokio::task::spawn$|^tokio::task::spawn_blocking$')
+def _(e, c, a):
+    e.events.append(('spawn', a[0])); return Opaque('JoinHandle')
+
+
+@model(r'EMPTY_CLUSTER_NAME as Deref>::deref$', front=True)
+def _(e, c, a):
+    # lazy_static! { static ref EMPTY_CLUSTER_NAME: ClusterName = ClusterName::empty(); }
+    return Ref(Cell(e.run_func(e.find_fn('ClusterName', 'empty'), [])))
+
+
+# ---------------------------------------------------------------- futures oneshot channel
+@model(r'oneshot::channel$')
+def _(e, c, a):
+    ch = Cell(None)
+    return Tuple(Struct('OneshotSender', [Ref(ch, 'Arc')]), Struct('OneshotReceiver', [Ref(ch, 'Arc')]))
+
+
+@model(r'oneshot::Sender(<.*>)?::send$')
+def _(e, c, a):
+    snd = un(a[0]); ch = snd.f[0].v.cell
+    ch.v = a[1]; e.events.append(('oneshot-send', snd, a[1]))
+    return Ok(mk_unit())
+
+
+@model(r'oneshot::Sender(<.*>)?::(is_canceled|poll_canceled)$')
+def _(e, c, a): return False
+
+
+@model(r'<(futures::)?(futures_channel::)?oneshot::Receiver<.*> as Future>::poll$', front=True)
+def _(e, c, a):
+    rcv = un(a[0])
+    if isinstance(rcv, Struct) and rcv.name == 'Pin': rcv = un(rcv.f[0].v)
+    ch = rcv.f[0].v.cell
+    if ch.v is None: return Enum('Poll', 1)
+    return Enum('Poll', 0, [Ok(ch.v)])
